@@ -166,8 +166,23 @@ static void read_patchable_loc(struct mcount_dynamic_info *mdi, struct uftrace_e
 	patchable_loc = mdi->patch_target;
 
 	sh_addr = shdr->sh_addr;
-	if (elf->ehdr.e_type == ET_DYN)
-		sh_addr += offset;
+	if (elf->ehdr.e_type == ET_DYN) {
+		struct uftrace_elf_iter ph_iter;
+		unsigned long first_vaddr = 0;
+
+		/*
+		 * @offset is where the first PT_LOAD segment got loaded, the
+		 * section lives at sh_addr plus the load bias: they differ by
+		 * the segment's p_vaddr (not 0 for a PIE linked by lld).
+		 */
+		elf_for_each_phdr(elf, &ph_iter) {
+			if (ph_iter.phdr.p_type == PT_LOAD) {
+				first_vaddr = ph_iter.phdr.p_vaddr;
+				break;
+			}
+		}
+		sh_addr += offset - first_vaddr;
+	}
 
 	for (i = 0; i < mdi->nr_patch_target; i++) {
 		unsigned long *entry = (unsigned long *)sh_addr + i;
